@@ -26,9 +26,10 @@ import (
 type layout struct {
 	name  string
 	files map[string]string
-	args  []string // goderive arguments
-	dirs  []string // directories that must hold a derived.gen.go afterwards ("." = module root)
-	class string   // class of the direct finding when the layout fails ("" = c01-layout)
+	args  []string   // goderive arguments
+	steps [][]string // when set: several goderive runs one after the other (args is ignored), each has to exit 0
+	dirs  []string   // directories that must hold a derived.gen.go afterwards ("." = module root)
+	class string     // class of the direct finding when the layout fails ("" = c01-layout)
 }
 
 const libTree = "package p\n\ntype Tree struct {\n\tName     string\n\tChildren []*Tree\n\tAttrs    map[string]int\n}\n\n" +
@@ -101,10 +102,16 @@ func layoutList() []layout {
 }
 
 func layouts(cfg hx.Config, meta *hx.Meta) {
-	ls := layoutList()
+	runLayouts(cfg, meta, "layout", "c01-layout", layoutList())
+}
+
+// runLayouts writes every layout into a scratch module of its own, runs goderive (one run, or the steps one after
+// the other), and reports a direct finding of the layout's class (default: defClass) when a run does not exit 0, a
+// directory that has derive calls is left without derived.gen.go, or `go vet ./...` of the module fails.
+func runLayouts(cfg hx.Config, meta *hx.Meta, prefix, defClass string, ls []layout) {
 	hx.Parallel(len(ls), 16, func(i int) {
 		l := ls[i]
-		dir := filepath.Join(cfg.Work, fmt.Sprintf("layout%02d", i))
+		dir := filepath.Join(cfg.Work, fmt.Sprintf("%s%02d", prefix, i))
 		if err := hx.Module(dir); err != nil {
 			meta.AddDirect(hx.Direct{Class: "c01-harness", What: err.Error()})
 			return
@@ -117,21 +124,34 @@ func layouts(cfg hx.Config, meta *hx.Meta) {
 			meta.AddDirect(hx.Direct{Class: "c01-harness", What: err.Error()})
 			return
 		}
-		what := "layout " + l.name + " (goderive " + strings.Join(l.args, " ") + ")"
-		g := hx.Goderive(cfg.Goderive, dir, l.args...)
-		cls := ga.ClassifyGoderive(g)
-		metaCount(meta, "layout/"+l.name+"/"+cls)
-		if cls == "panic" || cls == "timeout" {
-			return // C09
+		steps := l.steps
+		if len(steps) == 0 {
+			steps = [][]string{l.args}
 		}
+		var cmds []string
+		for _, st := range steps {
+			cmds = append(cmds, "goderive "+strings.Join(st, " "))
+		}
+		cmd := strings.Join(cmds, " && ")
+		what := prefix + " " + l.name + " (" + cmd + ")"
 		class := l.class
 		if class == "" {
-			class = "c01-layout"
+			class = defClass
 		}
-		if cls != "ok" {
-			meta.AddDirect(hx.Direct{Class: class, What: "goderive fails (" + cls + ") on " + what,
-				Files: l.files, Cmd: "goderive " + strings.Join(l.args, " "), Output: hx.Truncate(g.Out, 2000)})
-			return
+		var log strings.Builder
+		for si, st := range steps {
+			g := hx.Goderive(cfg.Goderive, dir, st...)
+			cls := ga.ClassifyGoderive(g)
+			metaCount(meta, prefix+"/"+l.name+"/"+cls)
+			log.WriteString(g.Out + "\n")
+			if cls == "panic" || cls == "timeout" {
+				return // C09
+			}
+			if cls != "ok" {
+				meta.AddDirect(hx.Direct{Class: class, What: fmt.Sprintf("goderive fails (%s) in run %d of %s", cls, si+1, what),
+					Files: l.files, Cmd: cmd, Output: hx.Truncate(log.String(), 2000)})
+				return
+			}
 		}
 		var missing []string
 		for _, d := range l.dirs {
@@ -151,7 +171,7 @@ func layouts(cfg hx.Config, meta *hx.Meta) {
 				msg += "; the module does not type-check"
 			}
 			meta.AddDirect(hx.Direct{Class: class, What: msg, Files: out,
-				Cmd: "goderive " + strings.Join(l.args, " ") + " && go vet ./...", Output: hx.Truncate(g.Out+"\n"+v.Out, 2500)})
+				Cmd: cmd + " && go vet ./...", Output: hx.Truncate(log.String()+"\n"+v.Out, 2500)})
 		}
 	})
 }
